@@ -6,7 +6,7 @@
    C08/Stream.v (one channel). *)
 From Coq Require Import ZArith List Bool Lia Arith.
 Import ListNotations.
-Require Import SV.Common SV.C08.Gen_tokens SV.C08.Stream SV.C08.StreamCheck SV.C07.Strip SV.C07.Fds.
+Require Import SV.Common SV.C08.Gen_tokens SV.C08.Stream SV.C08.StreamCheck SV.C07.Strip SV.C07.Fds SV.C07.Gen_facts.
 Local Open Scope Z_scope.
 
 Record pcfg := mkCfg {
@@ -31,10 +31,21 @@ Record world := mkW {
 Inductive wop :=
 | WSpawn (p : nat) (o : outcome)
 | WWrite (p : nat) (c : chan) (d : bytes)     (* the child writes *)
+| WWriteGen (p : nat) (c : chan) (n seed : Z) (* the child writes gen_bytes n seed (large bursts) *)
 | WRead (p : nat) (c : chan) (n : nat)        (* poll reports p's c pipe readable; read(2) returns <= n bytes *)
 | WExit (p : nat)                             (* the child exits *)
 | WReap (p : nat)                             (* waitpid returns it: Subprocess.finish *)
 | WOpen | WClose (fd : nat).                  (* unrelated descriptors *)
+
+(* deterministic filler for large writes: byte i is (7 i + seed) mod 251 *)
+Fixpoint gen_loop (fuel : nat) (v : Z) : bytes :=
+  match fuel with O => [] | S f => v :: gen_loop f ((v + 7) mod 251) end.
+Definition gen_bytes (n seed : Z) : bytes := gen_loop (Z.to_nat (Z.min n 65536)) (seed mod 251).
+
+(* read(fd, want) through ServerOptions.readfd: at most readfd_size bytes, at most
+   what the pipe holds *)
+Definition read_take (want : Z) (avail : bytes) : nat :=
+  Z.to_nat (Z.min (Z.min want readfd_size) (zlen avail)).
 
 Definition upd2 {A} (f : nat -> chan -> A) (p : nat) (c : chan) (v : A) : nat -> chan -> A :=
   fun q c' => if Nat.eqb q p && chan_eqb c' c then v else f q c'.
@@ -100,7 +111,9 @@ Section World.
     | [] => Some w
     | (_, c) :: r =>
       if is_out c && negb (closed (w_d w p c)) then
-        match deliver (set_pipe w p c []) p c (w_pipe w p c) with
+        (* one readfd; whatever it does not return is lost when the pipe is closed *)
+        let k := read_take readfd_size (w_pipe w p c) in
+        match deliver (set_pipe w p c (skipn k (w_pipe w p c))) p c (firstn k (w_pipe w p c)) with
         | Some w' => drain w' p r
         | None => None
         end
@@ -136,6 +149,11 @@ Section World.
         let c' := if redirect p then COut else c in
         Some (set_pipe w p c' (w_pipe w p c' ++ d))
       else Some w
+    | WWriteGen p c n seed =>
+      if running w p && negb (w_exited w p) && is_out c then
+        let c' := if redirect p then COut else c in
+        Some (set_pipe w p c' (w_pipe w p c' ++ gen_bytes n seed))
+      else Some w
     | WRead p c n =>
       match fd_of w p c with
       | None => Some w
@@ -152,7 +170,7 @@ Section World.
                     end
                   else Some w      (* not readable *)
           | _ =>
-            let k := Nat.max 1 n in
+            let k := read_take (Z.max 1 (Z.of_nat n)) avail in
             match route (w_f w) nprocs fd with
             | Some (q, c') => deliver (set_pipe w p c (skipn k avail)) q c' (firstn k avail)
             | None => Some w
@@ -166,9 +184,11 @@ Section World.
     | WReap p =>
       if running w p && w_exited w p then
         let l := p_disp (f_procs (w_f w) p) in
-        match drain w p l with
+        (* finish(): self.drain(), then record_output(final=True) on each dispatcher
+           (order generated from the source: finish_drain_first) *)
+        match (if finish_drain_first then drain w p l else final_flush w p l) with
         | Some w1 =>
-          match final_flush w1 p l with
+          match (if finish_drain_first then final_flush w1 p l else drain w1 p l) with
           | Some w2 =>
             Some (mkW (fstep redirect (w_f w2) (Finish p)) (w_d w2) (w_pipe w2)
                       (upd1 (w_exited w2) p false) (w_logs w2) (w_events w2))
